@@ -851,6 +851,10 @@ def exact_case(run, idx, cfgspec, seed):
     except Budget:
         run.count("exact-law-budget-exceeded")
         return
+    except NotImplementedError as ex:      # a form of np.random.* the scripted generators do not model: this sub-monitor cannot judge
+        run.count("exact-law-unsupported-draw-form")
+        run.notes["exact-law-unsupported"] = str(ex)[:200]
+        return
     except TypeError as ex:
         run.other_error(f"C15:{type(ex).__name__}:{str(ex)[:50]}")
         return
@@ -899,6 +903,9 @@ def exact_rows_case(run, sizes):
             except Budget:
                 run.count("exact-law-budget-exceeded")
                 continue
+            except NotImplementedError:
+                run.count("exact-law-unsupported-draw-form")
+                continue
             run.ok(kind="exact-law:rows")
             run.count("exact-law-executions", runs_x)
             if set(lawd) != set(range(m)) or any(abs(q - Fraction(1, m)) > Fraction(1, 10 ** 9) for q in lawd.values()):
@@ -928,8 +935,7 @@ def main(run):
                        "storage sizes / games other than the listed ones are not exercised"]
     run.require("ixai/explainer/sage/incremental.py:IncrementalSage.explain_one", "ixai/explainer/pfi.py:IncrementalPFI.explain_one",
                 "ixai/explainer/sage/batch.py:BatchSage.explain_many", "ixai/explainer/sage/batch.py:BatchSage.explain_many_original",
-                "ixai/imputer/marginal_imputer.py:MarginalImputer._sample_marginals",
-                "ixai/imputer/marginal_imputer.py:MarginalImputer._sample_product_marginals")
+                "ixai/imputer/marginal_imputer.py:MarginalImputer.impute")
     sh, nsh = run.shard
     grnd = random.Random(run.seed + 4242)       # extra configurations drawn from VERIF_SEED (identical in every shard)
     extra_out, extra_draw = [], []
